@@ -3,7 +3,8 @@
    the calls with those oracle values and reports
      1  a call aborted / did not abort where the model says otherwise (or an aborting call returned a non-zero wait)
      2  a wait that is not a legal jitter outcome for the model's base wait at that call
-     3  (connect cases) the loop announced a wait although the model's loop has none left / a different number of retries *)
+     3  (connect cases) the loop announced a wait although the model's loop has none left / a different number of retries
+     4  (classification cases) the number of dials or the way the loop ended differs from connect_script *)
 From Coq Require Import List ZArith Bool.
 From Piko Require Import NodeLoss.Backoff.
 Import ListNotations.
@@ -11,7 +12,9 @@ Local Open Scope Z_scope.
 
 Inductive bcase :=
 | BRaw (retries minb maxb : Z) (obs : list (Z * bool))       (* backoff.New(retries,min,max); obs = (wait, ok) per call *)
-| BConnect (cfg_min cfg_max : Z) (waits : list Z) (fails : Z). (* Upstream.connect with these fields; waits announced; failed dials seen *)
+| BConnect (cfg_min cfg_max : Z) (waits : list Z) (fails : Z)  (* Upstream.connect with these fields; waits announced; failed dials seen *)
+| BClass (status : Z) (fails attempts : nat) (connected : bool). (* the server fails the first `fails` handshakes with `status` (0 = no answer), then accepts;
+                                                                    attempts seen at the server, whether connect returned a session *)
 
 Fixpoint check_obs (b : bo) (obs : list (Z * bool)) : list nat :=
   match obs with
@@ -28,6 +31,12 @@ Fixpoint check_obs (b : bo) (obs : list (Z * bool)) : list nat :=
 Definition check (c : bcase) : list nat :=
   match c with
   | BRaw r mn mx obs => check_obs (bo_new r mn mx) obs
+  | BClass status fails attempts connected =>
+      let r := if status =? 0 then DRNoResponse else DRStatus status in
+      match connect_script (repeat r fails ++ [DRConnected]) with
+      | (n, Some c) => if Nat.eqb n attempts && Bool.eqb c connected then [] else [4%nat]
+      | (_, None) => [4%nat]
+      end
   | BConnect cmin cmax waits fails =>
       (if Z.of_nat (length waits) =? fails then [] else [3%nat]) ++
       check_obs (connect_backoff cmin cmax) (map (fun w => (w, true)) waits)
